@@ -4,7 +4,8 @@ import TunnoxModel.Spec.C03
 Line protocol for C03 (see harness/c03/main.go):
   case: seq ips <i0,i1,..> nc <n> rl <B> : <ev> ; <ev> ; …
         ev: fc <c> <ty> | hs <c> <ty> <k|z> <-|j|h<key>.L<d>|h<key>.P<d>> | mal <c> | emp <c>
-            | ban/unban/bl/unbl/refill <ip> | exp/del/strip <k>          ty: c | t | e | x | a
+            | ban/unban/bl/unbl/refill <ip> | exp/del/strip <k> | sec <k> <u|d|e|l>     ty: c | t | e | x | a
+        nc: a number (all usable) or one letter per client u|d|e|l; key: <k> | E | C<k> | P<k>
   obs:  per event  <ok|new<k>|ch<n>|fail|none|-> c <conn>… r <lookup>… b <bits> l <bits>   joined by ` ; `
         conn: - | <0|1>/<id|->/<pending|->      lookup: <conn> | -
 -/
@@ -29,6 +30,16 @@ def nrefOf (s : String) : Option NRef :=
   | 'P' :: d => (String.ofList d).toNat?.map .prev
   | _ => none
 
+def keyOf (s : String) : Option Key :=
+  if s == "E" then some .empty
+  else match s.toList with
+    | 'C' :: k => (String.ofList k).toNat?.map .cipher
+    | 'P' :: k => (String.ofList k).toNat?.map .plain
+    | _ => s.toNat?.map .client
+
+def secOf : Char → Option SecState
+  | 'u' => some .usable | 'd' => some .undec | 'e' => some .empty | 'l' => some .legacy | _ => none
+
 def respRefOf (s : String) : Option RespRef :=
   if s == "-" then some .none
   else if s == "j" then some .junk
@@ -36,7 +47,7 @@ def respRefOf (s : String) : Option RespRef :=
     | 'h' :: rest =>
       match (String.ofList rest).splitOn "." with
       | [k, r] => do
-        let k ← k.toNat?
+        let k ← keyOf k
         let r ← nrefOf r
         pure (.hmac k r)
       | _ => none
@@ -54,7 +65,10 @@ def eventOf : List String → Option Event
   | ["refill", i] => i.toNat?.map .refill
   | ["exp", k] => k.toNat?.map .exp
   | ["del", k] => k.toNat?.map .del
-  | ["strip", k] => k.toNat?.map .strip
+  | ["strip", k] => k.toNat?.map (fun k => .strip k .empty)
+  | ["sec", k, st] => do
+    let st ← match st.toList with | [c] => secOf c | _ => none
+    pure (.strip (← k.toNat?) st)
   | _ => none
 
 def now0 : Nat := 1000000000000000000
@@ -62,10 +76,11 @@ def now0 : Nat := 1000000000000000000
 def parseCase : List String → Option (Hdr × List Event)
   | "seq" :: "ips" :: ips :: "nc" :: nc :: "rl" :: b :: ":" :: rest => do
     let ips ← (ips.splitOn ",").mapM String.toNat?
-    let nc ← nc.toNat?
+    let secs ← match nc.toNat? with | some _ => some [] | none => nc.toList.mapM secOf
+    let nc := match nc.toNat? with | some n => n | none => nc.length
     let b ← b.toNat?
     let evs ← ((splitSemi rest).filter (fun l => !l.isEmpty)).mapM eventOf
-    pure (⟨now0, ips, nc, b⟩, evs)
+    pure (⟨now0, ips, nc, b, secs⟩, evs)
   | _ => none
 
 def optStr : Option Nat → String
